@@ -95,6 +95,7 @@ def account(chk, obs):
     chk.count('iterated_dnas', len(o['iter']))
     chk.count('sweeping_proposals', len(o['sweep']))
     chk.count('sweeping_recoveries', len(o['recov']))
+    chk.count('sweeping_polled_past_the_end', (1 if o['sweep_end'][2] != -1 else 0) + len(o['recov']))
     chk.count('sweeping_recoveries_with_pending', sum(1 for r in o['recov'] if r[1] > 0))
     chk.count('next_of_rebuilt', len(o['nexts']))
     chk.count('resumed_iterations', 1 if o['resume'][0] else 0)
@@ -199,7 +200,7 @@ def run(chk):
   c = chk.counters
   for need in ('probe:v', 'probe:neg', 'probe:inc', 'probe:dec', 'probe:drop', 'probe:add', 'probe:dup', 'probe:swap',
                'probe:i2f', 'probe:f2i', 'probe:finc', 'probe:fdec', 'probe:n2i', 'validate_accepts', 'validate_rejects',
-               'bind_accepts', 'bind_rejects', 'iterated_dnas', 'sweeping_proposals', 'sweeping_recoveries_with_pending', 'next_of_rebuilt',
+               'bind_accepts', 'bind_rejects', 'iterated_dnas', 'sweeping_proposals', 'sweeping_recoveries_with_pending', 'sweeping_polled_past_the_end', 'next_of_rebuilt',
                'resumed_iterations', 'random_dnas', 'specs_finite', 'specs_infinite'):
     chk.require(c.get(need, 0) > 0, f'vacuous: counter {need} is zero')
   chk.exhaustive = False
